@@ -9,9 +9,9 @@ def describe(sig, lines, rel, info):
     # classify by what the scenario contained, so a known finding only matches its own class
     try:
         reset = json.loads(lines[0])
-        oc = set(reset.get("outcome", {}).values())
+        oc = set(reset.get("outcome", {}).values()) | set(reset.get("pout", {}).values())
         tags = []
-        if "panic" in oc:
+        if "panic" in oc or "planpanic" in oc:
             tags.append("panic")
         if "err" in oc:
             tags.append("err")
@@ -33,7 +33,12 @@ def run(ctx, replay):
     ctx.model_check("MCPipeline", "MCPipeline.cfg" if thorough else "MCPipeline_quick.cfg", coverage=thorough, timeout=1800)
     # sensitivity: the pre-repair behaviour must violate the property in the model
     ctx.model_check("MCPipeline", "MCPipeline_dev.cfg", expect="violation")
-    # leg T: real pipeline + real baseStage + real pool under a seeded gate scheduler
+    # the plan tree of a stage (baseStage.execute): pre-order, first failing operator = outcome of the stage
+    ctx.model_check("MCPipelineTree", "MCPipelineTree.cfg" if thorough else "MCPipelineTree_quick.cfg", timeout=1800)
+    # sensitivity: "the result of the last child wins" in the child loop must violate the property in the model
+    ctx.model_check("MCPipelineTree", "MCPipelineTree_dev_lasterr.cfg", expect="violation")
+    # leg T: real pipeline + real baseStage (Execute and the plan tree walk) + real plan nodes + real pool under a
+    # seeded gate scheduler; scripted plan-tree cases first, then random stage trees with random plan trees
     n = 3000 if thorough else 400
     tr = os.path.join(ctx.scratch, "pipeline.ndjson")
     summ, rc, _ = ctx.run_vdrive(["pipeline", "--seed", ctx.seed, "--traces", n, "--out", tr,
@@ -64,6 +69,14 @@ def run(ctx, replay):
                 return lines[:i] + lines[i + 1:]
         return None
     vcore.corrupt_selftest(ctx, "PipelineTrace", "PipelineTrace.cfg", tr, drop, "one FinMark event dropped")
+
+    def late_op(lines):
+        # an operator "runs" after a failed one of the same stage: repeat the line of the failing operator's predecessor
+        for i, ln in enumerate(lines):
+            if '"ev":"Op"' in ln and '"outcome":"err"' in ln and i > 0 and '"ev":"Op"' in lines[i - 1]:
+                return lines[:i + 1] + [lines[i - 1]] + lines[i + 1:]
+        return None
+    vcore.corrupt_selftest(ctx, "PipelineTrace", "PipelineTrace.cfg", tr, late_op, "an operator runs after the failed one")
     # "each request produces one response, never none and never two": the leaf's answer (LeafExecuteContext.SendResponse
     # called by the completion callback of a real pipeline), every receiver's stream recorded
     ctx.model_check("LeafResponse", "MCLeafResponse.cfg", timeout=300)
@@ -86,6 +99,7 @@ def run(ctx, replay):
         return None
     vcore.corrupt_selftest(ctx, "LeafResponseTrace", "LeafResponseTrace.cfg", trl, second_response, "a receiver gets a second response")
     ctx.assumptions += [
-        "stage bodies are scripted (ok/err/panic); the pipeline, state machine, baseStage.Execute and the worker pool are the real code",
-        "schedules are explored at the granularity of the gates (stage body, NextStages, error handler) plus free-running timing",
+        "operators of the plan trees are scripted (ok/err/panic/not-found); the pipeline, state machine, baseStage.Execute/execute, "
+        "the plan nodes and the worker pool are the real code",
+        "schedules are explored at the granularity of the gates (every operator, NextStages, error handler) plus free-running timing",
     ]
